@@ -380,6 +380,20 @@ def generate():
     out += ["]", "",
             "/-- the public sun and moon functions (sun.__all__, moon.__all__, moon angles) -/",
             "def publicFns : List Nat := [%s]" % ", ".join(str(idx[p]) for p in pub),
+            "",
+            "/-- the public geocoder functions (module-level, not underscore-prefixed) -/",
+            "def geoFns : List Nat := [%s]" % ", ".join(
+                str(idx[n]) for n in names
+                if n.startswith("astral.geocoder.") and not n.split(".")[-1].startswith("_")
+                and not n.endswith("<module>")),
+            "",
+            "/-- the functions of astral.julian and the time-unit helpers of astral/__init__ -/",
+            "def julianFns : List Nat := [%s]" % ", ".join(
+                str(idx[n]) for n in names
+                if (n.startswith("astral.julian.") or n in (
+                    "astral.hours_to_time", "astral.time_to_hours", "astral.time_to_seconds",
+                    "astral.minutes_to_timedelta", "astral.now", "astral.today"))
+                and not n.endswith("<module>") and n not in ("astral.now", "astral.today")),
             "", "end Astral.Gen", ""]
     text = "\n".join(out)
     os.makedirs(os.path.dirname(OUT), exist_ok=True)
